@@ -72,6 +72,7 @@ def parseV {ν : Type} (ob : Nat → ν) : Nat → List String → Option (V ν 
         | some (xs, r') => some (.arglist xs, r')
         | none => none
       | none => none
+    | "PN" :: r => some (.parenNull, r)
     | "N" :: r =>
       match parseV ob fuel r with
       | some (v, r') => some (.notOf v, r')
